@@ -52,7 +52,9 @@ LEVEL_TEXT = ("Machine-checked (Props/C20.lean, 73 theorems, axioms propext/Clas
               "node, and the freeNode loop of clear() for any length, are proved on the heap; plist_history: from the fresh "
               "object in any heap every push_back/push_front/pop_front/pop_back/clear/insert(it)/erase(it) sequence inside "
               "the std::list contract runs through the executable pointer code (PL.pstep, the function the driver executes "
-              "against the C++) without an invalid dereference and reads back exactly the specified List. const XalanDOMChar* overloads and the compare / equals / ASCII-case-insensitive "
+              "against the C++) without an invalid dereference and reads back exactly the specified List; splice(pos, *this, "
+              "it) is proved on the heap for any two places (plist_splice_same_refines) and as a history step preserving the "
+              "same representation (plist_move_refines, PL.pmove executed by the driver). const XalanDOMChar* overloads and the compare / equals / ASCII-case-insensitive "
               "family against lexicographic order and equality. Bucket capacities, rehash points (41st/88th/188th insertion "
               "-> 64/139/299 buckets), 1.6x growth and deque block capacities as theorems. The models "
               "are tied to the working tree by replaying generated request logs on the real code (header templates and the "
@@ -67,11 +69,12 @@ LEVEL_NOTE = ("Trusted: Lean kernel (+ leanchecker in the thorough tier); the ha
               "List/ObjectCache.hpp, XalanDOMString.{hpp,cpp}, XalanDOMStringPool/HashTable.cpp, XalanBitmap.{hpp,cpp} (checked "
               "by the correspondence run, bounded by generator coverage); harnesses, generators and python references. "
               "Modelled, not verified: placement new / destructor calls themselves (observed through the instrumented element "
-              "class), the prev/next pointer surgery of XalanList (sequence edits in the model; real code under ASan), "
+              "class), the prev/next pointer surgery of XalanList for cross-list splice, range splice and swap (executable heap model "
+              "compared with the real code under ASan; the other member functions are proved on the heap), "
               "capacities of bucket vectors and of deque blocks, memory-manager failure paths, the char* (transcoding) "
               "overloads of XalanDOMString, the XALAN_OBJECT_CACHE_KEEP_BUSY_LIST variant of XalanObjectCache (not compiled), "
-              "the arena allocator behind XalanDOMStringPool. Partial theorems: list splice/swap histories (the two halves "
-              "of splice are proved at ring level, the composed heap-level splice / range splice / swap only run in the "
+              "the arena allocator behind XalanDOMStringPool. Partial theorems: list splice/swap histories (splice inside "
+              "one list is proved at heap level; splice between two lists, range splice and swap only run in the "
               "correspondence); deque and list event histories over the primitive alphabets push/pop/clear and "
               "insert/erase/clear, map events per operation; invariant 'bucket size <= bucket capacity' observed, not proved.")
 DESIGN_REF = "DESIGN.md section 5, C20; design/C20.md"
@@ -130,6 +133,7 @@ THEOREMS = [
     "XalanModel.Props.C20.plist_constructNode_first_refines",
     "XalanModel.Props.C20.plist_history",
     "XalanModel.Props.C20.plist_splice_same_refines",
+    "XalanModel.Props.C20.plist_move_refines",
     "XalanModel.Props.C20.set_step_refines",
     "XalanModel.Props.C20.objcache_get_refines",
     "XalanModel.Props.C20.objcache_release_put_refines",
